@@ -944,7 +944,7 @@ func child(o *vh.Opts) {
 	// cap the address space: a hostile length must never make the check eat the machine
 	_ = syscall.Setrlimit(syscall.RLIMIT_AS, &syscall.Rlimit{Cur: 12 << 30, Max: 12 << 30})
 	debug.SetGCPercent(50)
-	h := &runner{o: o, r: vh.NewRand(o.Seed), cur: filepath.Join(o.Out, "current_case.json"), budget: o.Pick(1700, 10000),
+	h := &runner{o: o, r: vh.NewRand(vh.NewRand(o.Seed).U64()), cur: filepath.Join(o.Out, "current_case.json"), budget: o.Pick(1700, 10000),
 		res:   vh.NewResult("lists written by WriteLengthedSlice/NewLengthedBytesSlice read back by ReadLengthedBytesSlice (with trailing data) and ReadLengthedSlice (chunked readers, 3 EOF policies); every/200 strict prefixes; bit flips, +-1 and boundary values in length fields, byte flips/drops/dups, raw bytes; frames; EnsureRead. Non-trivial = non-empty list / frame"),
 		cases: &vh.Cases{Import: "From MV Require Import C29.Model.", Type: "case", CheckFn: "check", Shard: 400}}
 	res := h.res
